@@ -428,7 +428,12 @@ pub enum BlockEdit {
     /// the rebroadcast (ATR) transactions of the block pay their outputs to another key; rebroadcast
     /// hash, merkle root and signature are recomputed from the edited content (not in BLOCK_EDITS)
     AtrRedirect,
+    /// the header carries an id that is not the parent's id + 1, re-signed by the creator (not in
+    /// BLOCK_EDITS): two ids skipped / an id at or below the parent's
+    IdSkip,
+    IdStale,
 }
+pub const ID_EDITS: [BlockEdit; 2] = [BlockEdit::IdSkip, BlockEdit::IdStale];
 pub const PAYOUT_EDITS: [BlockEdit; 4] = [BlockEdit::FeeTxExtraOutput, BlockEdit::FeeTxDropOutput, BlockEdit::FeeTxRedirect, BlockEdit::FeeTxInflate];
 pub const BLOCK_EDITS: [BlockEdit; 10] = [
     BlockEdit::BurnFee,
@@ -453,6 +458,13 @@ pub fn apply_block_edit(b: &mut Block, e: BlockEdit, creator: &KeyPair, parent_d
         BlockEdit::PrevUnpaid => b.previous_block_unpaid = b.previous_block_unpaid.wrapping_add(7),
         BlockEdit::TotalFeesUnsigned => b.total_fees = b.total_fees.wrapping_add(5),
         BlockEdit::AvgTotalFees => b.avg_total_fees = b.avg_total_fees.wrapping_add(9),
+        BlockEdit::IdSkip => b.id += 2,
+        BlockEdit::IdStale => {
+            if b.id < 3 {
+                return false;
+            }
+            b.id -= 2;
+        }
         BlockEdit::AtrRedirect => {
             let mut any = false;
             for t in b.transactions.iter_mut().filter(|t| t.transaction_type == TransactionType::ATR) {
